@@ -4,6 +4,8 @@ From Coq Require Import String Ascii.
 From V.lib Require Import Base.
 From V.c19 Require Import C19Model C19Spec C19InvProofs C19TrackProofs C19DescProofs C19ElngProofs C19ScopeProofs C19Witness.
 From V.c19 Require Import C19RecModel C19RecProofs C19RecLinkProofs.
+From V.c01 Require Import C01Codec C01Model.
+From V.c19 Require Import C19TreeModel C19TreeProofs C19TreeScopeProofs.
 
 
 (* For EVERY op sequence (any arguments, including calls that return an error or panic; the history stops
@@ -299,6 +301,50 @@ Theorem C19_descriptor_hevc_record :
 Proof. exact set_hevc_record. Qed.
 Print Assumptions C19_descriptor_hevc_record.
 
+(* ------------------------------------------------------------------ the whole init segment in C01's box model
+   (C19TreeModel.v: tree_of s = the box tree of state s with every constant the constructors write; C01's
+   encode_seq false / decode_file are the models of InitSegment.Encode / the box loop of DecodeFile; the
+   correspondence compares encode_seq false (tree_of s) with the bytes of the real InitSegment.Encode) *)
+
+(* roundtrip_ok is a sound decision procedure for C19_roundtrip on one state: if it answers true then the encoded
+   tree decodes to an EQUAL tree (equality of every header, every field of every leaf and every captured reserved
+   byte), the decoded file passes File.AddChild's fragmented-init test and GetTrex finds a trex for every track.
+   The check evaluates it (extracted) on every correspondence case. *)
+Theorem C19_roundtrip_checker_sound :
+  forall s, roundtrip_ok s = true ->
+    exists ts bs, tree_of s = Some ts /\ encode_seq false ts = Ok bs /\ decode_file bs = Ok ts
+      /\ (traks s <> [] -> is_fragmented_init ts = true)
+      /\ (forall t, In t (traks s) -> has_trex ts (tk_id t) = true).
+Proof. exact roundtrip_sound. Qed.
+Print Assumptions C19_roundtrip_checker_sound.
+
+(* for EVERY history (any arguments, any SPS parser): the tree built for the final state, whenever it has a byte
+   model, passes the fragmented-init test of File.AddChild as soon as there is a track (the first trak has the
+   mdia/minf/stbl/stts chain and its stts is empty) and holds a trex for every track id: the two facts about the
+   decoded init that C19_roundtrip asks for, on the tree that is encoded *)
+Theorem C19_built_fragmented_trex :
+  forall (avc_parse : avc_parser) (hevc_parse : hevc_parser) (ops : list op),
+    N.of_nat (length ops) < 4294967295 ->
+    let s := snd (run avc_parse hevc_parse ops) in
+    forall ts, tree_of s = Some ts ->
+      (traks s <> [] -> is_fragmented_init ts = true) /\ (forall t, In t (traks s) -> has_trex ts (tk_id t) = true).
+Proof. exact built_all. Qed.
+Print Assumptions C19_built_fragmented_trex.
+
+(* C19_roundtrip over a COMPLETE SMALL SCOPE (1951 histories, enumerated in C19TreeScopeProofs.small_scope and
+   decided inside Coq): one or two tracks over the seven media types, 3-letter / 2-letter / BCP-47 tags, each track
+   with none or one of the fitting descriptor sequences (AVC, HEVC, AVC then HEVC, AC-3, E-AC-3, wvtt, stpp).
+   The full statement (every op sequence) is NOT proved: it needs a print-then-parse lemma for every box kind of
+   C01's decoder; on the real code it is evaluated by the search. *)
+Theorem C19_roundtrip_partial :
+  forall ops, In ops small_scope ->
+    let s := snd (run ex_avc_parse ex_hevc_parse ops) in
+    exists ts bs, tree_of s = Some ts /\ encode_seq false ts = Ok bs /\ decode_file bs = Ok ts
+      /\ (traks s <> [] -> is_fragmented_init ts = true)
+      /\ (forall t, In t (traks s) -> has_trex ts (tk_id t) = true).
+Proof. exact small_scope_roundtrip. Qed.
+Print Assumptions C19_roundtrip_partial.
+
 (* Outside the quantifier (history starting from a DECODED init), reproduced on the real code by the harness:
    AddEmptyTrack repeats an id when the decoded ids are not 1..n, and does not keep the traks together when the
    first moov child is a trak (lastTrakIdx = 0 is read as "no trak"). *)
@@ -365,4 +411,16 @@ Example C19_record_hyp :
 Proof.
   split; [vm_compute; reflexivity|]. split; [vm_compute; reflexivity|].
   intros sps w h cfg E. unfold ex_hevc_const in E. inversion E. vm_compute. reflexivity.
+Qed.
+
+(* the small scope is not empty or trivial: 1951 histories; number 209 is a two-track history of five calls: a video
+   track with an avc3 and then a hev1 sample entry, and an audio track with a descriptor (E-AC-3) *)
+Example C19_small_scope_hyp :
+  lenN small_scope = 1951 /\ In (nth 209 small_scope []) small_scope
+  /\ map (fun o => match o with AddEmptyTrack _ m _ => m | SetDesc _ (DAvc n _ _ _) => n | SetDesc _ (DHevc n _ _ _ _ _) => n
+                               | SetDesc _ _ => [] end) (nth 209 small_scope [])
+     = [BS "video"; BS "avc3"; BS "hev1"; BS "audio"; []].
+Proof.
+  split; [exact small_scope_size|]. split; [|vm_compute; reflexivity].
+  apply nth_In. pose proof small_scope_size as Z. unfold lenN in Z. lia.
 Qed.
